@@ -68,6 +68,8 @@ def run(chk):
     def eq(rule, inst, got, ref, where, key=None):
         ok = d.equal(got, ref)
         chk.ob(rule, inst, ok, '' if ok else f'identity fails: {d.describe(got, ref)}', where, key=key, method='GF(p^2) PIT')
+    from .common import ArrayTwin
+    twin = ArrayTwin(chk, 'R11.10', it, d)
 
     G = n * n * a * a * a / (m1 + m2)          # Kepler's third law as the repo's own conversion defines it (C17)
     # orbital energy and angular momentum as functions of (a, e) with n eliminated
@@ -158,6 +160,7 @@ def run(chk):
     callsites(chk, repo, it, ms, md, S, D)
     oop_callsites(chk, repo, ms, md, S, D)
     # ---- R11.7 the loop closed through the real mode summation
+    twin.finish(floor=7)
     closed_loop(chk, repo, ms, md, S, D)
     entry_points(chk, repo)
     from .common import inplace_lint
